@@ -19,68 +19,67 @@ RULES = [
  ("FromU32>::from_u32", r"unwrap_unchecked", "u32 -> usize never fails on 32/64-bit targets (compile_error! otherwise in lib.rs)", None),
  # ---- connectors' map_connection_ids: reached only through Dictionary::map_connection_ids_from_iter
  ("::map_connection_ids", r"assert_failed", "assert_eq!(mapper.num_*, self.num_*): Dictionary::map_connection_ids_from_iter compares both lengths first and returns Err on mismatch; the dual connector's inner matrix mapper is built with exactly matrix_connector.num_left/right entries", MAPLEN),
- ("DualConnector as", r"unwrap\(try_from\((right|left)_id\)\)", "loop index < num_right/num_left = mapper length, and ConnIdMapper::parse rejects more than u16::MAX ids (`u16::try_from(new_id)?`)", MAPLEN),
- ("RawConnector as", r"unwrap\(try_from\((right|left)_id\)\)", "loop index < num_right/num_left = mapper length, and ConnIdMapper::parse rejects more than u16::MAX ids", MAPLEN),
- ("DualConnector as", r"Index<I>>::index\(self\.(right|left)_(feat_ids|conn_id_map)", "index is the loop variable of 0..num_right()/num_left() = len of the conn_id_map; feat_ids has the same length (one U31x8 per id, built together in from_readers)", None),
- ("DualConnector as", r"index_mut\(new_(right|left)_", "new_id = mapper.right/left(id) is a value of a permutation of 0..len (ConnIdMapper::parse) and the vector was allocated with the same length", MAPLEN),
- ("DualConnector as", r"index_mut\(matrix_mapper_(left|right)", "values of *_conn_id_map are row numbers < matrix_connector.num_left/right by construction (create_matrix_connector)", None),
- ("DualConnector as", r"Add\((left|right)_id,1\)", "counts distinct matrix rows, at most the number of ids (< 65536)", None),
- ("MatrixConnector as", r"cast\|usize->u16", "loop variable of 0..num_right/num_left, both parsed from a u16 header (or <= 65535 rows in the dual connector)", None),
- ("MatrixConnector as", r"index\(self\.data,index\)|index_mut\(mapped,new_index\)", "index() of ids < num_right/num_left (loop bound / permutation values) is < num_right*num_left = data.len()", MAPLEN),
+ ("DualConnector as", r"unwrap\(try_from\(next", "loop index < num_right/num_left = mapper length, and ConnIdMapper::parse rejects more than u16::MAX ids (`u16::try_from(new_id)?`)", MAPLEN),
+ ("RawConnector as", r"unwrap\(try_from\(next", "loop index < num_right/num_left = mapper length, and ConnIdMapper::parse rejects more than u16::MAX ids", MAPLEN),
+ ("DualConnector as", r"Index<I>>::index\(arg1\.(right|left)_(feat_ids|conn_id_map),next", "index is the loop variable of 0..num_right()/num_left() = len of the conn_id_map; feat_ids has the same length (one U31x8 per id, built together in from_readers)", None),
+ ("DualConnector as", r"index_mut\(from_elem\((default\(\)|0)\),from\((right|left)\(arg2\)\)\)", "new_id = mapper.right/left(id) is a value of a permutation of 0..len (ConnIdMapper::parse) and the vector was allocated with the same length", MAPLEN),
+ ("DualConnector as", r"index_mut\(from_elem\(65535\),from\(next", "values of *_conn_id_map are row numbers < matrix_connector.num_left/right by construction (create_matrix_connector)", None),
+ ("DualConnector as", r"Add\(var:u16,1\)", "counts distinct matrix rows, at most the number of ids (< 65536)", None),
+ ("MatrixConnector as", r"cast\|usize->u16", "loop variable of 0..num_right/num_left, both parsed from a u16 header (or <= 65536 rows in the dual connector)", None),
+ ("MatrixConnector as", r"index\(arg1\.data,index\(arg1\)\)|index_mut\(from_elem\(0\),index\(arg1\)\)", "index() of ids < num_right/num_left (loop bound / permutation values) is < num_right*num_left = data.len()", MAPLEN),
  ("RawConnector as", r"assert:Overflow", "id * row width with id <= number of rows: the product is an offset into an allocated vector", None),
- ("RawConnector as", r"index(_mut)?\((mapped|self\.(right|left)_feat_ids),agg\)|copy_from_slice", "row ranges id*w..(id+1)*w with id < num (loop bound / permutation value) lie inside vectors of num*w elements; source and destination rows have equal width", MAPLEN),
+ ("RawConnector as", r"index(_mut)?\((from_elem\(default\(\)\)|arg1\.(right|left)_feat_ids),agg\)|copy_from_slice", "row ranges id*w..(id+1)*w with id < num (loop bound / permutation value) lie inside vectors of num*w elements; source and destination rows have equal width", MAPLEN),
  ("RawConnector as vibrato::dictionary::connector::Connector>::num_", r"DivisionByZero", "feat_template_size is non-zero for every connector the builder returns (empty models are rejected)", FTS),
  ("U31x8 as bincode::Decode", r"assert_failed", "debug_assert_eq!(size_of_val([U31; 8]), 32): compile-time fact of the type", None),
  # ---- char.def
- ("cate_id::{closure#1}", r"unwrap\(try_from\(id\)\)", "id is a position in `categories`, which holds at most 18 entries", None),
+ ("cate_id::{closure#1}", r"unwrap\(try_from\(arg2\)\)", "the argument is a position in `categories`, which holds at most 18 entries", None),
  ("encode_cate_info", r"Shl\(1,base_id", "base_id is a category id; from_reader rejects ids >= CATE_IDSET_BITS (18) before CharInfo::new, so the shift amount is < 32 and the bit stays inside the 18-bit id set", CATE),
- ("CharProperty::from_reader", r"unwrap\(try_from\(len\(cate_map\)\)\)", "the map holds at most 19 entries (ids >= 18 are rejected right after insertion)", None),
- ("CharProperty::from_reader", r"index_mut\(categories", "values of cate_map are dense ids 0..cate_map.len() (each new name gets id = current len) and categories has cate_map.len() slots", None),
+ ("CharProperty::from_reader", r"unwrap\(try_from\(len\(new\(\)\)\)\)", "the map holds at most 19 entries (ids >= 18 are rejected right after insertion)", None),
+ ("CharProperty::from_reader", r"index_mut\(from_elem\(new\(\)\),from_u32\(next", "values of cate_map are dense ids 0..cate_map.len() (each new name gets id = current len) and categories has cate_map.len() slots", None),
  ("parse_char_category", r"panicking::panic", "assert! on the caller's own dispatch: from_reader calls this only for non-empty lines not starting with 0x", None),
  ("parse_char_range", r"panicking::panic", "assert! on the caller's own dispatch: from_reader calls this only for lines starting with 0x", None),
  # ---- dual connector construction
- ("create_matrix_connector", r"Mul\(len\(right_feats_map\),len\(left_feats_map\)\)|Mul\(lid|Add\(Mul\(lid", "row counts are at most 65536 each (u16::try_from(conn_id)? a few lines above)", None),
- ("create_matrix_connector", r"index_mut\(matrix,index\)", "lid < left rows, rid < right rows, so lid*right_rows+rid < matrix.len()", None),
+ ("create_matrix_connector", r"assert:Overflow", "row counts are at most 65536 each (u16::try_from(conn_id)? in the closure above), so products and sums stay below 2^33", None),
+ ("create_matrix_connector", r"index_mut\(from_elem\(0\),Add\(Mul", "lid < left rows, rid < right rows, so lid*right_rows+rid < matrix.len()", None),
  ("create_raw_connector", r"unwrap", "i enumerates scorer_builder.trie, whose length is max right-feature id + 1 <= number of interned strings (< 2^31, see parse_cost)", None),
  ("remove_feature_templates_greedy", r"Mul\(", "products of numbers of bigram lines / distinct rows held in memory; only used as a heuristic size (a wrap needs > 2^32 lines on both sides)", None),
  ("remove_feature_templates_greedy::{closure#0}", r"Add\(or_insert", "occurrence counter bounded by the number of rows", None),
  # ---- matrix.def
- ("MatrixConnector::from_reader", r"Mul\(num_right,num_left\)", "both come from u16 header fields (parse_header): product < 2^32", None),
- ("MatrixConnector::from_reader", r"Mul\(left_id,num_right\)|Add\(Mul\(left_id", "guarded by `num_right <= right_id || num_left <= left_id => Err` just above: left_id*num_right+right_id < num_left*num_right", None),
- ("MatrixConnector::from_reader", r"index_mut\(data", "same guard: the cell index is < num_right*num_left = data.len()", None),
+ ("MatrixConnector::from_reader", r"Mul\(branch\(_\)\.#0,branch\(_\)\.#1\)", "num_right * num_left, both from u16 header fields (parse_header): product < 2^32", None),
+ ("MatrixConnector::from_reader", r"Mul\(branch\(_\)\.#1,branch\(_\)\.#0\)|Add\(Mul", "guarded by `num_right <= right_id || num_left <= left_id => Err` just above: left_id*num_right+right_id < num_left*num_right", None),
+ ("MatrixConnector::from_reader", r"index_mut\(from_elem\(0\),Add", "same guard: the cell index is < num_right*num_left = data.len()", None),
  ("MatrixConnector::index", r"panicking::panic", "debug_assert! restating the caller's contract (ids < num_right/num_left, ensured by verify() for lexicon ids and by loop bounds in map_connection_ids)", None),
  ("MatrixConnector::index", r"assert:Overflow", "u16 id * num_right (<= 65536) + u16 id", None),
  # ---- raw connector construction
  ("RawConnector::from_readers", r"Add\(Div\(Sub|Mul\(Add\(Div", "rounding feat_template_size (max number of features on a line) up to a multiple of 8", None),
- ("RawConnector::from_readers", r"Mul\(Add\(len\((right|left)_feat_ids_tmp\),1\),feat_template_size\)", "(number of lines + 1) * widest line: a wrap needs > 2^32 lines and > 2^31 features on one line, i.e. more than 16 GiB of parsed input already held in memory", None),
- ("RawConnector::from_readers", r"index_mut\((right|left)_feat_ids,agg\)", "ranges ..w and w.. of a vector of (n+1)*w elements", None),
+ ("RawConnector::from_readers", r"Mul\(Add\(len\(_\.(right|left)_feat_ids_tmp\),1\)", "(number of lines + 1) * widest line: a wrap needs > 2^32 lines and > 2^31 features on one line, i.e. more than 16 GiB of parsed input already held in memory", None),
+ ("RawConnector::from_readers", r"index_mut\(from_elem\(2147483647\),agg\)", "ranges ..w and w.. of a vector of (n+1)*w elements", None),
  ("RawConnector::from_readers", r"chunks_mut", "chunk size feat_template_size is non-zero: RawConnectorBuilder::from_readers returns Err for an empty model and rounding up keeps it non-zero", FTS),
- ("RawConnector::from_readers", r"index_mut\(trg,agg\)|copy_from_slice", "trg is one row of width feat_template_size >= src.len() (the width is the maximum line length, rounded up)", None),
+ ("RawConnector::from_readers", r"index_mut\(next\(_\)\.#0,agg\)|copy_from_slice", "trg is one row of width feat_template_size >= src.len() (the width is the maximum line length, rounded up)", None),
  ("parse_cost", r"unwrap", "ids are map sizes: 2^31 distinct feature strings would need more than 48 GiB of keys", None),
- ("Scorer::retrieve_cost", r"index\(self\.costs,pos\)", "pos < checks.len() was just established by checks.get(pos), and costs has the same length (ScorerBuilder::build resizes both together; Scorer::decode rejects different lengths)", None),
- ("ScorerBuilder::build", r"index_mut\(bases,key1\)", "key1 enumerates self.trie and bases has trie.len() slots", None),
- ("ScorerBuilder::build", r"Add\(base,1\)", "search for a free base; terminates below checks.len() + number of keys (u32 arithmetic on values < 2^31 + table size)", None),
- ("ScorerBuilder::build", r"Add\(pos,1\)", "pos is a u32 widened to usize", None),
- ("ScorerBuilder::build", r"unwrap\(try_from\(key1\)\)", "key1 < trie.len() <= number of interned right features < 2^31", None),
- ("ScorerBuilder::build", r"index_mut\((checks|costs),pos\)", "both vectors were resized to pos+1 just above when pos was beyond the end", None),
- ("ScorerBuilder::insert", r"Add\(key1,1\)|index_mut\(self\.trie", "trie is resized to key1+1 just above; key1 is a u32 feature id", None),
- ("to_simd_vec", r"index_mut\(array,agg\)|copy_from_slice", "xs is a chunk of at most SIMD_SIZE = 8 elements (chunks(8)), array has 8", None),
+ ("Scorer::retrieve_cost", r"index\(arg1\.costs", "pos < checks.len() was just established by checks.get(pos), and costs has the same length (ScorerBuilder::build resizes both together; Scorer::decode rejects different lengths)", None),
+ ("ScorerBuilder::build", r"index_mut\(from_elem\(0\),next", "key1 enumerates self.trie and bases has trie.len() slots", None),
+ ("ScorerBuilder::build", r"Add\(var:u32,1\)", "search for a free base; terminates below checks.len() + number of keys (u32 arithmetic on values < 2^31 + table size)", None),
+ ("ScorerBuilder::build", r"Add\(from_u32", "pos is a u32 widened to usize", None),
+ ("ScorerBuilder::build", r"unwrap\(try_from\(next", "key1 < trie.len() <= number of interned right features < 2^31", None),
+ ("ScorerBuilder::build", r"index_mut\(new\(\),from_u32", "both vectors were resized to pos+1 just above when pos was beyond the end", None),
+ ("ScorerBuilder::insert", r"Add\(from_u32|index_mut\(arg1\.trie", "trie is resized to key1+1 just above; key1 is a u32 feature id", None),
+ ("to_simd_vec", r"index_mut\(_,agg\)|copy_from_slice", "xs is a chunk of at most SIMD_SIZE = 8 elements (chunks(8)), array has 8", None),
  ("to_simd_vec", r"assert_failed", "debug_assert_eq!(size_of_val([U31; 8]), 32): compile-time fact", None),
  # ---- lexicon CSV
- ("Lexicon::parse_csv", r"Add\(nin,1\)|Add\(features_len|Add\(record_end_pos|Add\(field_cnt", "running totals of bytes/fields consumed from the input slice: bounded by its length", None),
- ("Lexicon::parse_csv", r"array::index\(output,agg\)", "nout <= output.len() is csv-core's read_field contract", None),
- ("Lexicon::parse_csv", r"index::index\(bytes,agg\)", "nin <= bytes.len() is csv-core's read_field contract", None),
- ("Lexicon::parse_csv", r"index::index\(record_bytes,agg\)", "record_end_pos sums the nin of the current record, all taken from the slice starting at record_bytes", None),
- ("Lexicon::parse_csv", r"index::index\(features_bytes,agg\)", "features_len sums the nin of the feature fields read after features_bytes was set; it is reset to 0 in the cost-column arm, so it never counts bytes before features_bytes", FEATLEN),
- ("WordParams::get", r"index\(self\.params,word_id\)", "called from Lexicon::verify with the loop variable of 0..params.len() (tokenization-path callers are out of scope here)", None),
- ("ConnIdMapper::left", r"index\(self\.left", "ids handed to the mapper are < num_left: lexicon/unknown ids by verify() in build()/reset_user_lexicon, loop indices in the connectors, and the mapper's length equals the connector's", MAPLEN),
- ("ConnIdMapper::right", r"index\(self\.right", "as for left()", MAPLEN),
- ("ConnIdMapper::parse", r"index_mut\(new_ids,from\(0\)\)", "new_ids has old_ids.len() >= 1 elements (old_ids starts with the BOS/EOS id)", None),
+ ("Lexicon::parse_csv", r"assert:Overflow\|Add\(", "running totals of bytes/fields consumed from the input slice: bounded by its length", None),
+ ("Lexicon::parse_csv", r"array::index\(_,agg\)", "nout <= output.len() is csv-core's read_field contract", None),
+ ("Lexicon::parse_csv", r"index::index\(arg1,agg\)", "nin <= bytes.len() is csv-core's read_field contract", None),
+ ("Lexicon::parse_csv", r"index::index\(var:&\[u8\],agg\)", "record_end_pos / features_len sum the nin of the fields read since record_bytes / features_bytes were set, so the ranges stay inside those slices; features_len is reset to 0 in the cost-column arm and therefore never counts bytes before features_bytes", FEATLEN),
+ ("WordParams::get", r"index\(arg1\.params,arg2\)", "called from Lexicon::verify with the loop variable of 0..params.len() (tokenization-path callers are out of scope here)", None),
+ ("ConnIdMapper::left", r"index\(arg1\.left", "ids handed to the mapper are < num_left: lexicon/unknown ids by verify() in build()/reset_user_lexicon, loop indices in the connectors, and the mapper's length equals the connector's", MAPLEN),
+ ("ConnIdMapper::right", r"index\(arg1\.right", "as for left()", MAPLEN),
+ ("ConnIdMapper::parse", r"index_mut\(from_elem\(65535\),from\(0\)\)", "new_ids has old_ids.len() >= 1 elements (old_ids starts with the BOS/EOS id)", None),
  ("ConnIdMapper::parse", r"assert_failed", "debug_assert_ne!(old_id, 0): id 0 was rejected with Err while old_ids was filled", None),
- ("UnkHandler::from_reader", r"unwrap\(try_from\(val\)\)", "category ids are < 18", None),
- ("UnkHandler::from_reader", r"index_mut\(map", "cate_id is a position in char_prop's category list and map has num_categories() slots", None),
- ("utils::parse_csv_row", r"array::index\(output", "nout <= output.len() is csv-core's contract", None),
- ("utils::parse_csv_row", r"index::index\(bytes", "nin <= bytes.len() is csv-core's contract", None),
+ ("UnkHandler::from_reader", r"unwrap\(try_from\(branch", "category ids are < 18", None),
+ ("UnkHandler::from_reader", r"index_mut\(from_elem\(new\(\)\)", "cate_id is a position in char_prop's category list and map has num_categories() slots", None),
+ ("utils::parse_csv_row", r"array::index\(_", "nout <= output.len() is csv-core's contract", None),
+ ("utils::parse_csv_row", r"index::index\(var", "nin <= bytes.len() is csv-core's contract", None),
  ("utils::parse_csv_row", r"unwrap\(from_utf8", "the input is a &str and csv unquoting only removes ASCII quote bytes at character boundaries; fields are converted whole (accumulated across OutputFull)", None),
 ]
 
@@ -102,7 +101,7 @@ def main():
                 break
         else:
             missing.append(k)
-    entries.append({"key": "NARROW|vibrato::dictionary::unknown::UnkHandler::scan_entries|cast|usize->u16(word_id)|0",
+    entries.append({"key": "NARROW|vibrato::dictionary::unknown::UnkHandler::scan_entries|cast|usize->u16(next(_))|0",
                     "reason": "word_id < entries.len(), and UnkHandler::from_reader rejects more than 65536 entries",
                     "guard": {"kind": "len_le", "fn": "vibrato::dictionary::unknown::UnkHandler::from_reader",
                               "local": "entries", "le": 65536}})
